@@ -107,22 +107,48 @@ pub struct Loaded {
     pub specs: Vec<ZoneSpec>,
     pub models: Vec<RefZone>,
     pub server: Server<Cat>,
+    /// How the catalog reached its contents (see `load_hist`).
+    pub history: u8,
 }
 
 pub fn load(specs: Vec<ZoneSpec>) -> Result<Loaded, String> {
+    load_hist(specs, 0)
+}
+
+/// `history` 0: the zones are inserted into an empty catalog. 1 / 2: after
+/// that, a not-yet-loaded entry one / two labels below the first zone's apex
+/// is inserted and removed again - the same catalog contents reached through
+/// a longer history (removal prunes tree nodes next to and above live
+/// entries). The expected answers are the same.
+pub fn load_hist(specs: Vec<ZoneSpec>, history: u8) -> Result<Loaded, String> {
     let mut zones = Vec::new();
     let mut models = Vec::new();
     for s in &specs {
         zones.push(qd::build_zone(&s.apex, s.class, GluePolicy::Narrow, &s.recs).map_err(|(i, e)| format!("zone.add rejected record {i}: {e}"))?);
         models.push(s.model());
     }
-    let server = Server::new(Arc::new(qd::catalog_of(zones)));
-    Ok(Loaded { specs, models, server })
+    let mut catalog = qd::catalog_of(zones);
+    if history > 0 {
+        if let Some(first) = specs.first() {
+            let mut name = wire::child(b"removed", &first.apex);
+            if history > 1 {
+                name = wire::child(b"a", &name);
+            }
+            if name.len() <= 255 {
+                let class = quandary::class::Class::from(first.class);
+                catalog.insert(quandary::db::catalog::Entry::NotYetLoaded(qd::qname(&name), class, ()));
+                catalog.remove(&qd::qname(&name), class);
+            }
+        }
+    }
+    let server = Server::new(Arc::new(catalog));
+    Ok(Loaded { specs, models, server, history })
 }
 
 fn case_json(ld: &Loaded, q: &Query, exp: &Expect, detail: &str, response: Option<&[u8]>) -> Value {
     json!({
         "catalog": ld.specs.iter().map(|s| s.to_json()).collect::<Vec<_>>(),
+        "catalog_history": ld.history,
         "query": q.to_json(),
         "request": hex(&q.request()),
         "expected": format!("{exp:?}"),
@@ -610,12 +636,17 @@ pub fn run(ctx: Ctx) -> ! {
             return;
         }
         evaluated.fetch_add(1, std::sync::atomic::Ordering::Relaxed);
-        match load(vec![spec.clone()]) {
-            Ok(ld) => {
-                let qs = queries_for(&ld, &[Variant::Udp]);
-                run_queries(l, &ld, "", qs);
+        // Zones of at most two menu records are also served from a catalog
+        // that went through an insertion and removal below the apex.
+        let histories: &[u8] = if subset.len() <= 2 { &[0, 1] } else { &[0] };
+        for &h in histories {
+            match load_hist(vec![spec.clone()], h) {
+                Ok(ld) => {
+                    let qs = queries_for(&ld, &[Variant::Udp]);
+                    run_queries(l, &ld, if h == 0 { "" } else { "via-removal " }, qs);
+                }
+                Err(e) => l.violation("harness:zone-rejected", json!({"zone": spec.to_json(), "error": e})),
             }
-            Err(e) => l.violation("harness:zone-rejected", json!({"zone": spec.to_json(), "error": e})),
         }
     });
     ctx.set_extra(
@@ -637,12 +668,14 @@ pub fn run(ctx: Ctx) -> ! {
                 return;
             }
         }
-        match load(s.catalog.clone()) {
-            Ok(ld) => {
-                let qs = queries_for(&ld, ALL_VARIANTS);
-                run_queries(l, &ld, &s.tag, qs);
+        for h in [0u8, 1, 2] {
+            match load_hist(s.catalog.clone(), h) {
+                Ok(ld) => {
+                    let qs = queries_for(&ld, if h == 0 { ALL_VARIANTS } else { &[Variant::Udp] });
+                    run_queries(l, &ld, &s.tag, qs);
+                }
+                Err(e) => l.violation("harness:zone-rejected", json!({"catalog": s.catalog.iter().map(|z| z.to_json()).collect::<Vec<_>>(), "error": e})),
             }
-            Err(e) => l.violation("harness:zone-rejected", json!({"catalog": s.catalog.iter().map(|z| z.to_json()).collect::<Vec<_>>(), "error": e})),
         }
     });
 
@@ -651,7 +684,7 @@ pub fn run(ctx: Ctx) -> ! {
     ctx.assume("responses are small (no truncation; C04 covers size limits)");
     ctx.finish(
         "exploration",
-        "family 1: apex t. with SOA(TTL 3, MINIMUM 5)+NS plus every subset of <= K (4 quick / 5 thorough) records of a 49-record menu (10 owners incl. wildcards, nested names, ENTs; A AAAA TXT NS CNAME MX SRV with in-zone, below-cut, out-of-zone, mixed-case, nonexistent targets), zones outside the statement dropped, x every QNAME of the zone's closure (existing names, RDATA targets, q/*/q.q below each, upper-case spellings) x 10 QTYPEs (A AAAA NS CNAME MX TXT SOA SRV ANY TYPE65280) + names outside the catalog; family 2: structured catalogs (CNAME chains of 1..10 links x 13 endings x entered directly / through a wildcard; loops of length 1..4 after 0..8 links; SOA TTL x MINIMUM grid incl. >= 2^31; classes IN CH HS 65280; nested/sibling/root zones) x 6 well-formed request shapes (UDP, TCP, EDNS, extra records in answer/authority/additional); each through Server::handle_message, response decoded by the independent codec and RCODE, AA, answer, authority (exact multisets, names case-insensitive) and additional (required/optional sets) compared with the reference resolver refdns.rs",
+        "family 1: apex t. with SOA(TTL 3, MINIMUM 5)+NS plus every subset of <= K (4 quick / 5 thorough) records of a 49-record menu (10 owners incl. wildcards, nested names, ENTs; A AAAA TXT NS CNAME MX SRV with in-zone, below-cut, out-of-zone, mixed-case, nonexistent targets), zones outside the statement dropped, x every QNAME of the zone's closure (existing names, RDATA targets, q/*/q.q below each, upper-case spellings) x 10 QTYPEs (A AAAA NS CNAME MX TXT SOA SRV ANY TYPE65280) + names outside the catalog; family 2: structured catalogs (CNAME chains of 1..10 links x 13 endings x entered directly / through a wildcard; loops of length 1..4 after 0..8 links; SOA TTL x MINIMUM grid incl. >= 2^31; classes IN CH HS 65280; nested/sibling/root zones) x 6 well-formed request shapes (UDP, TCP, EDNS, extra records in answer/authority/additional); the structured catalogs and the zones of <= 2 menu records also from a catalog that went through the insertion and removal of an entry below the first apex; each through Server::handle_message, response decoded by the independent codec and RCODE, AA, answer, authority (exact multisets, names case-insensitive) and additional (required/optional sets) compared with the reference resolver refdns.rs",
         true,
     );
 }
@@ -659,7 +692,7 @@ pub fn run(ctx: Ctx) -> ! {
 fn replay(ctx: &Ctx, case: &Value) {
     let specs: Vec<ZoneSpec> = case["catalog"].as_array().expect("catalog").iter().map(ZoneSpec::from_json).collect();
     let q = Query::from_json(&case["query"]);
-    let ld = match load(specs) {
+    let ld = match load_hist(specs, case["catalog_history"].as_u64().unwrap_or(0) as u8) {
         Ok(ld) => ld,
         Err(e) => {
             ctx.violation("harness:zone-rejected", json!({"error": e}));
